@@ -390,7 +390,8 @@ func (vg *fVG) shapeOK(p *packages.Package, fd *ast.FuncDecl, reason string, val
 		var savePos token.Pos
 		inspectShallow(fd.Body, func(n ast.Node) bool {
 			as, ok := n.(*ast.AssignStmt)
-			if !ok || len(as.Lhs) != 1 || len(as.Rhs) != 1 || as.Pos() >= store.Pos() {
+			// `old := M[k]` or the comma-ok form `old, present := M[k]`
+			if !ok || len(as.Lhs) < 1 || len(as.Lhs) > 2 || len(as.Rhs) != 1 || as.Pos() >= store.Pos() {
 				return true
 			}
 			rix, ok := ast.Unparen(as.Rhs[0]).(*ast.IndexExpr)
